@@ -226,6 +226,11 @@ func (r *Run) Finish() {
 			fmt.Printf("    %s\n", w)
 		}
 	}
+	if os.Getenv("GEDCHECK_DUMP") != "" {
+		for _, o := range r.Obs {
+			fmt.Printf("OB %s %q at %s: state=%d %s\n", o.Rule, o.Key, o.Pos, o.State, o.Reason)
+		}
+	}
 	for _, o := range und {
 		fmt.Printf("UNDECIDED property=%s rule=%s key=%q at %s: %s\n", r.Prop, o.Rule, o.Key, o.Pos, o.Reason)
 	}
